@@ -198,6 +198,53 @@ def r4_content_length(ctx):
                 if x[0] == 'field' and x[3] == 'content_length':
                     fields.add(x[3])
         r.check(bool(fields), 'headers|eos-length', rh.file, 'Recv::recv_headers tests Stream.content_length')
+        # a HEADERS frame with END_STREAM, a parsable content-length > 0 and no :status (i.e. a request) must be refused
+        # on every path: explore recv_headers under exactly those assumptions
+        PSEUDO = 'frame::headers::Pseudo'
+
+        def oracle(sw):
+            subj = sw.subject
+            calls = [x[1] for x in walk(subj) if x[0] == 'call']
+            st = strip(subj)
+            if sw.kind == 'bool' and st[0] == 'call':
+                if st[1].endswith('ContentLength::is_head'):
+                    return lambda l: l is False
+                if st[1] == 'frame::headers::Headers::is_end_stream':
+                    return lambda l: l is True
+                if mentions_field(subj, PSEUDO, 'status'):
+                    m = st[1].rsplit('::', 1)[-1]
+                    if m in ('map_or', 'unwrap_or') and len(st[2]) >= 2 and st[2][1][0] == 'const' and st[2][1][1] in (0, 1):
+                        v = bool(st[2][1][1])
+                        return lambda l, v=v: l is v
+                    if m == 'is_some_and':
+                        return lambda l: l is False
+                    if m == 'is_none_or':
+                        return lambda l: l is True
+            c = core.cmp_of(sw)
+            if c is not None:
+                op, a, b = c
+                if any(x.endswith('frame::headers::parse_u64') for x in [y[1] for y in walk(a) if y[0] == 'call']) and strip(b)[0] == 'const' and strip(b)[1] == 0:
+                    v = op in ('Gt', 'Ne', 'Ge')
+                    return lambda l, v=v: l is v
+            if sw.kind == 'variant':
+                if st[0] == 'call' and st[1] == 'http::HeaderMap::get' and any(x[0] == 'const' and x[2] and 'CONTENT_LENGTH' in str(x[2]) for x in walk(subj)):
+                    return lambda l: isinstance(l, frozenset) and 'Some' in l
+                if st[0] == 'call' and st[1] == 'frame::headers::parse_u64':
+                    return lambda l: isinstance(l, frozenset) and 'Ok' in l
+                if core.last_field(st) == (PSEUDO, 'status') and st[0] == 'field' and not any(c2.endswith('into_parts') for c2 in calls):
+                    return lambda l: isinstance(l, frozenset) and 'None' in l
+            return None
+        try:
+            exits, parent, nforced = core.assume_scan(F, rh, oracle)
+            r.check(nforced >= 5, 'headers|eos-length|assumptions', rh.file, 'assumptions matched %d switch edges (is_head, get(content-length), parse_u64, is_end_stream, > 0, :status absent)' % nforced)
+            for (bi, rc, st_) in exits:
+                ok = rc == 'Err' or rc.startswith('Err')
+                r.check(ok, 'headers|eos-length|request|%s' % rc.split(':')[0], rh.loc(bi),
+                        'HEADERS with END_STREAM, content-length > 0 and no :status (a request): exit %s%s' % (rc, '' if ok else ' — the malformed request is delivered (RFC 9113 §8.1.1)'),
+                        witness=core.compress_path(rh, [x['bb'] for x in core.witness_path(rh, parent, bi, st_)]))
+            r.check(bool(exits), 'headers|eos-length|exits', rh.file, '%d exit state(s) explored under the assumptions' % len(exits))
+        except core.Cap as e:
+            r.bad('headers|eos-length|cap', rh.file, str(e))
     sr = F.fn(P + 'streams::Streams::send_request')
     if sr:
         heads = [1 for bi, si, pl, rv, ln in sr.stmts() if core.write_target(sr, pl) == (STREAM, 'content_length')]
@@ -250,6 +297,56 @@ def r5_names(ctx):
                     written.setdefault(wt[1], []).append(bool(edges) and c.dominated_by_edges(bi, edges))
         for n in NAMES:
             r.check(n in written and all(written[n]), 'load|repeat|' + n, ld.file, ':%s is stored only when not already present (a repeated pseudo field is malformed)' % n)
+        # ordering: every pseudo store sits on the false edge of one captured "regular field seen" flag; the
+        # regular-field arm raises it; and because load() runs once per HEADERS / CONTINUATION frame on the same
+        # block, the flag's initial value must come from the fields accumulated so far
+        def flag_of(e):
+            e2 = e
+            while e2[0] in ('deref', 'ref'):
+                e2 = e2[1]
+            if e2[0] == 'upvar':
+                x = e2[1]
+                while x[0] in ('deref', 'ref'):
+                    x = x[1]
+                if x[0] == 'var':
+                    return x[1]
+            return None
+        flags = {}
+        for c in cl:
+            sws = core.all_switches(F, c)
+            for bi, si, pl, rv, ln in c.stmts():
+                wt = core.write_target(c, pl)
+                if wt and wt[0] == 'frame::headers::Pseudo':
+                    doms = set()
+                    for sb, sw in sws.items():
+                        if sw is None or sw.kind != 'bool':
+                            continue
+                        fl = flag_of(sw.subject)
+                        if fl is None:
+                            continue
+                        es = [(sb, s2) for s2, l in sw.labels.items() if l is False]
+                        if es and c.dominated_by_edges(bi, es):
+                            doms.add(fl)
+                    flags.setdefault(wt[1], []).append(doms)
+        common = None
+        for n in NAMES:
+            for doms in flags.get(n, [set()]):
+                common = doms if common is None else (common & doms)
+            r.check(n in flags and all(flags[n]), 'load|order|' + n, ld.file, ':%s is stored only while no regular field has been seen (pseudo fields after regular fields are malformed)' % n)
+        common = common or set()
+        r.check(len(common) == 1, 'load|order|one-flag', ld.file, 'all six pseudo stores test the same flag (parent locals: %s)' % sorted(common))
+        if len(common) == 1:
+            fl = list(common)[0]
+            sets = 0
+            for c in cl:
+                for bi, si, pl, rv, ln in c.stmts():
+                    if len(pl) > 1 and flag_of(c.expr_of_place(pl)) == fl and rv[0] == 'use' and core.op_const(rv[1]) is not None and core.op_const(rv[1])[0] == 1:
+                        sets += 1
+            r.check(sets >= 1, 'load|order|raised', ld.file, 'the regular-field arm raises the flag (%d store(s) of true)' % sets)
+            inits = [d for d in ld.defs.get(fl, []) if d[0] == 's']
+            carried = any(mentions_field(ld.expr_of_rvalue(d[3]), 'frame::headers::HeaderBlock', 'fields') for d in inits)
+            r.check(carried, 'load|order|carried-across-frames', ld.file,
+                    'the flag starts from the fields already accumulated in the block%s' % ('' if carried else ': it is re-armed at every CONTINUATION frame, so a pseudo field in a later fragment is accepted after regular fields (initial value: %s)' % '; '.join(core.show(ld.expr_of_rvalue(d[3])) for d in inits)))
     ih = F.fn(P + 'streams::Inner::recv_headers')
     if ih:
         # trailers without END_STREAM are a stream error
